@@ -1,0 +1,147 @@
+//! Verification-only failpoints (compiled only with the `verif-hooks` feature).
+//!
+//! A failpoint is a statement `crate::verif_failpoints::hit::<E>("site")?;` placed immediately
+//! before an existing fallible statement of a mutating operation. While a session is active on the
+//! current thread and armed with hit index `n`, the `n`-th failpoint reached returns an injected
+//! error of the surrounding function's error type, simulating that the following statement failed
+//! on entry. Outside a session (the default) every failpoint is a no-op.
+#![allow(missing_docs, clippy::missing_errors_doc, clippy::must_use_candidate)]
+
+use crate::core::algorithms::flips::{DelaunayRepairError, FlipError};
+use crate::core::algorithms::incremental_insertion::InsertionError;
+use crate::core::triangulation::TriangulationValidationError;
+use crate::core::triangulation_data_structure::{TdsMutationError, TdsValidationError};
+use std::cell::RefCell;
+
+#[derive(Default)]
+struct State {
+    active: bool,
+    armed: Option<u64>,
+    flavour: u8,
+    hits: u64,
+    fired: Option<&'static str>,
+    trace: Vec<&'static str>,
+}
+
+thread_local! {
+    static STATE: RefCell<State> = RefCell::new(State::default());
+}
+
+/// What a session saw.
+#[derive(Debug, Clone, Default)]
+pub struct Report {
+    /// number of failpoints reached
+    pub hits: u64,
+    /// the site that returned the injected error (if any)
+    pub fired: Option<&'static str>,
+    /// every site reached, in order
+    pub trace: Vec<&'static str>,
+}
+
+/// Start a session on this thread. `armed = Some(n)` makes the n-th (1-based) failpoint fail once.
+pub fn begin(armed: Option<u64>, flavour: u8) {
+    STATE.with(|s| {
+        *s.borrow_mut() = State {
+            active: true,
+            armed,
+            flavour,
+            ..State::default()
+        };
+    });
+}
+
+/// End the session and return what it saw.
+pub fn end() -> Report {
+    STATE.with(|s| {
+        let st = std::mem::take(&mut *s.borrow_mut());
+        Report {
+            hits: st.hits,
+            fired: st.fired,
+            trace: st.trace,
+        }
+    })
+}
+
+/// Error types that can carry an injected failure.
+pub trait Injected {
+    fn injected(site: &'static str, flavour: u8) -> Self;
+}
+
+fn tds_err(site: &'static str) -> TdsValidationError {
+    TdsValidationError::InconsistentDataStructure {
+        message: format!("verif failpoint {site}"),
+    }
+}
+
+impl Injected for TdsValidationError {
+    fn injected(site: &'static str, _flavour: u8) -> Self {
+        tds_err(site)
+    }
+}
+impl Injected for TdsMutationError {
+    fn injected(site: &'static str, _flavour: u8) -> Self {
+        Self(tds_err(site))
+    }
+}
+impl Injected for TriangulationValidationError {
+    fn injected(site: &'static str, _flavour: u8) -> Self {
+        Self::from(tds_err(site))
+    }
+}
+impl Injected for InsertionError {
+    fn injected(site: &'static str, flavour: u8) -> Self {
+        if flavour % 2 == 0 {
+            // not retryable: surfaces as Err
+            Self::CavityFilling {
+                message: format!("verif failpoint {site}"),
+            }
+        } else {
+            // retryable: drives the perturbation-retry / skip path
+            Self::TopologyValidation(tds_err(site))
+        }
+    }
+}
+impl Injected for FlipError {
+    fn injected(site: &'static str, flavour: u8) -> Self {
+        if flavour % 2 == 0 {
+            Self::NeighborWiring {
+                message: format!("verif failpoint {site}"),
+            }
+        } else {
+            Self::TdsMutation {
+                message: format!("verif failpoint {site}"),
+            }
+        }
+    }
+}
+impl Injected for DelaunayRepairError {
+    fn injected(site: &'static str, flavour: u8) -> Self {
+        if flavour % 2 == 0 {
+            Self::PostconditionFailed {
+                message: format!("verif failpoint {site}"),
+            }
+        } else {
+            Self::Flip(FlipError::injected(site, 1))
+        }
+    }
+}
+
+/// The failpoint itself.
+pub fn hit<E: Injected>(site: &'static str) -> Result<(), E> {
+    STATE.with(|s| {
+        let mut st = s.borrow_mut();
+        if !st.active {
+            return Ok(());
+        }
+        st.hits += 1;
+        if st.trace.len() < 4096 {
+            st.trace.push(site);
+        }
+        if st.armed == Some(st.hits) {
+            st.armed = None;
+            st.fired = Some(site);
+            return Err(E::injected(site, st.flavour));
+        }
+        Ok(())
+    })
+}
